@@ -262,6 +262,15 @@ class ConcE:
     def opaque(self, what, **info):
         return info.get('concrete', object())
 
+    def fold(self, name, data, init, step, lo=None, hi=None, additive=False):
+        acc = init
+        for b in data:
+            acc = step(acc, b)
+        return acc
+
+    def fold_state(self, name, data, j, unfold=False):
+        raise Vacuous()
+
     def as_bytes(self, seq):
         return bytes(seq)
 
